@@ -78,19 +78,69 @@ Qed.
 Lemma match_at_ge r st e : match_at r st = Some e -> m_pos st <= m_pos e.
 Proof. unfold match_at. intros H. apply mt_ge in H. destruct H as (s & L & H). injection H as <-. exact L. Qed.
 
+(* ---- a conservative test: the expression cannot match the empty string ---- *)
+Fixpoint nonempty (r : re) : bool :=
+  match r with
+  | RIn _ _ | RAny => true
+  | RCat a b => nonempty a || nonempty b
+  | RAlt a b => nonempty a && nonempty b
+  | RRep mn _ _ body => Nat.leb 1 mn && nonempty body
+  | RGroup _ body => nonempty body
+  | _ => false
+  end.
+
+Lemma mt_gt : forall r st k e, nonempty r = true -> mt r st k = Some e -> exists st', m_pos st < m_pos st' /\ k st' = Some e.
+Proof.
+  induction r as [| |neg items| |a IHa b IHb|a IHa b IHb|mn mx greedy body IH|g body IH|ml|ml|neg body IH]; intros st k e NE H; cbn [nonempty] in NE; try discriminate NE; cbn [mt] in H.
+  - destruct (advance st) as [[c st']|] eqn:A; [|discriminate H]. destruct (xorb neg (in_cls c items)); [|discriminate H].
+    exists st'. split; [rewrite (advance_pos _ _ _ A); lia | exact H].
+  - destruct (advance st) as [[c st']|] eqn:A; [|discriminate H]. destruct (c =? 10); [discriminate H|].
+    exists st'. split; [rewrite (advance_pos _ _ _ A); lia | exact H].
+  - destruct (nonempty a) eqn:Na.
+    + apply IHa in H; [|reflexivity]. destruct H as (s1 & L1 & H). apply mt_ge in H. destruct H as (s2 & L2 & H). exists s2. split; [lia | exact H].
+    + cbn in NE. apply mt_ge in H. destruct H as (s1 & L1 & H). apply IHb in H; [|exact NE]. destruct H as (s2 & L2 & H). exists s2. split; [lia | exact H].
+  - apply Bool.andb_true_iff in NE. destruct NE as [Na Nb].
+    destruct (mt a st k) eqn:E; [injection H as <-; exact (IHa _ _ _ Na E) | exact (IHb _ _ _ Nb H)].
+  - apply Bool.andb_true_iff in NE. destruct NE as [Nm Nb]. apply Nat.leb_le in Nm.
+    (* either the loop gets past its start, or it stops there having done mn iterations already *)
+    assert (G : (exists st', m_pos st < m_pos st' /\ k st' = Some e) \/ ((mn <= 0)%nat /\ k st = Some e)).
+    { revert H. generalize (S (length (m_after st)) + mn)%nat. generalize 0%nat. revert st.
+      intros st count fuel. revert count st. induction fuel as [|f IHf]; intros count st H; [discriminate H|].
+      destruct greedy.
+      - match type of H with match ?m with _ => _ end = _ => destruct m eqn:M end.
+        + injection H as <-. destruct (match mx with Some m => (count <? m)%nat | None => true end); [|discriminate M]. apply IH in M; [|exact Nb]; destruct M as (s1 & L1 & M);
+             destruct ((m_pos s1 =? m_pos st) && (mn <=? S count)%nat); [left; exists s1; split; [lia | exact M]|];
+             apply IHf in M; destruct M as [(s2 & L2 & M)|[_ M]]; left; [exists s2 | exists s1]; (split; [lia | exact M]).
+        + destruct (mn <=? count)%nat eqn:Le; [|discriminate H]. apply Nat.leb_le in Le. right. split; [exact Le | exact H].
+      - match type of H with match ?m with _ => _ end = _ => destruct m eqn:M end.
+        + injection H as <-. destruct (mn <=? count)%nat eqn:Le; [|discriminate M]. apply Nat.leb_le in Le. right. split; [exact Le | exact M].
+        + destruct (match mx with Some m => (count <? m)%nat | None => true end); [|discriminate H]. apply IH in H; [|exact Nb]; destruct H as (s1 & L1 & H);
+             destruct ((m_pos s1 =? m_pos st) && (mn <=? S count)%nat); [left; exists s1; split; [lia | exact H]|];
+             apply IHf in H; destruct H as [(s2 & L2 & H)|[_ H]]; left; [exists s2 | exists s1]; (split; [lia | exact H]). }
+    destruct G as [G|[G _]]; [exact G | lia].
+  - apply IH in H; [|exact NE]. destruct H as (s1 & L1 & H). eexists. split; [|exact H]. cbn. exact L1.
+Qed.
+
+Lemma match_at_gt r st e : nonempty r = true -> match_at r st = Some e -> m_pos st < m_pos e.
+Proof. unfold match_at. intros NE H. apply (mt_gt _ _ _ _ NE) in H. destruct H as (s & L & H). injection H as <-. exact L. Qed.
+
+Lemma html_tag_nonempty : nonempty re_html_inline_HTML_TAG_RE = true. Proof. vm_compute. reflexivity. Qed.
+Lemma digital_nonempty : nonempty re_entity_DIGITAL_RE = true. Proof. vm_compute. reflexivity. Qed.
+Lemma named_nonempty : nonempty re_entity_NAMED_RE = true. Proof. vm_compute. reflexivity. Qed.
+
 (* ---- the invariant of the inline state ---- *)
 (* every delimiter of every delimiter list points at an existing token and is not matched yet *)
 Definition DD (st : istate) : Prop :=
   forall l, In l (i_dstore st) -> forall d, In d l -> 0 <= d_token d < len (i_tokens st) /\ d_end d = -1.
 (* ... and the skipToken memo table holds positions *)
-Definition CA (st : istate) : Prop := Forall (fun kv : Z * Z => 0 <= snd kv) (i_cache st).
+Definition CA (st : istate) : Prop := Forall (fun kv : Z * Z => 0 <= snd kv /\ fst kv < snd kv) (i_cache st).
 Definition DI (st : istate) : Prop := DD st /\ CA st.
 Definition PI (st : istate) : Prop := 0 <= i_pos st /\ i_posMax st <= len (i_src st) /\ DI st.
 (* what every step keeps *)
 Definition kp (st st' : istate) : Prop :=
   PI st' /\ i_src st' = i_src st /\ i_posMax st' = i_posMax st /\ i_prev st' = i_prev st.
 Definition kpr (st : istate) (r : bool * istate) : Prop :=
-  kp st (snd r) /\ (fst r = false -> i_pos (snd r) = i_pos st).
+  kp st (snd r) /\ (fst r = false -> i_pos (snd r) = i_pos st) /\ (fst r = true -> i_pos st < i_pos (snd r)).
 
 Lemma kp_refl st : PI st -> kp st st.
 Proof. intros H. split; [exact H|]. split; [reflexivity|]. split; reflexivity. Qed.
@@ -196,7 +246,10 @@ Ltac sstep :=
 (* an unguarded read inside the source *)
 Ltac spy := eapply safe_bind; [apply safe_py_idx; lia | let c := fresh "c" in let Ec := fresh "Ec" in intros c Ec _].
 Ltac kpf := apply kp_fields; [assumption | reflexivity | reflexivity | reflexivity | reflexivity | reflexivity | reflexivity | try (cbn; lia)].
-Ltac fail_same HP := split; [apply kp_refl; exact HP | intros _; reflexivity].
+Ltac fail_same HP := split; [apply kp_refl; exact HP | split; [intros _; reflexivity | discriminate]].
+Ltac fail_at K E := split; [exact K | split; [intros _; exact E | discriminate]].
+(* a successful rule: the state relation, and the position moved forward *)
+Ltac succ := refine (conj _ (conj (fun X : true = false => ltac:(discriminate X)) (fun _ => _))); cbn [fst snd].
 
 Lemma find_terminator_ge : forall s i p, find_terminator s i = Some p -> i <= p.
 Proof. induction s as [|c s IH]; intros i p H; cbn [find_terminator] in H; [discriminate|]. destruct (mem_z c text_terminators); [injection H as <-; lia|]. apply IH in H. lia. Qed.
@@ -207,11 +260,20 @@ Proof.
   destruct (pos <? mx) eqn:E; [|apply safe_ok; lia]. spy. sstep; [|apply safe_ok; lia].
   eapply safe_weaken; [apply IH; lia|]. intros r _ Hr. cbv beta in Hr. lia.
 Qed.
-Lemma run_len_safe : forall fuel src pos mx m, 0 <= pos -> mx <= len src -> safe (run_len fuel src pos mx m) (fun r => pos <= r).
+Lemma run_len_safe : forall fuel src pos mx m, 0 <= pos -> mx <= len src ->
+  safe (run_len fuel src pos mx m) (fun r => pos <= r /\ (r <= mx \/ r = pos)).
 Proof.
   induction fuel as [|f IH]; intros src pos mx m H0 H1; cbn [run_len]; [apply safe_ok; lia|].
   destruct (pos <? mx) eqn:E; [|apply safe_ok; lia]. spy. sstep; [|apply safe_ok; lia].
   eapply safe_weaken; [apply IH; lia|]. intros r _ Hr. cbv beta in Hr. lia.
+Qed.
+(* a run that starts on its own marker has length at least one *)
+Lemma run_len_first fuel src pos mx m : 0 <= pos -> mx <= len src -> pos < mx -> py_idx src pos = Ok m ->
+  safe (run_len (S fuel) src pos mx m) (fun r => pos + 1 <= r /\ r <= mx).
+Proof.
+  intros H0 H1 H2 E. cbn [run_len]. assert (X : (pos <? mx) = true) by lia. rewrite X. rewrite E. cbn [bind].
+  assert (Y : (m =? m) = true) by lia. rewrite Y.
+  eapply safe_weaken; [apply run_len_safe; lia|]. intros r _ Hr. cbv beta in Hr. lia.
 Qed.
 
 Section SRules.
@@ -229,8 +291,7 @@ Proof.
   set (pos := match find_terminator (skipn (Z.to_nat (i_pos st)) (i_src st)) (i_pos st) with Some p => p | None => i_posMax st end).
   assert (PG : i_pos st <= pos).
   { unfold pos. destruct (find_terminator _ _) eqn:E; [exact (find_terminator_ge _ _ _ E) | lia]. }
-  sstep; [apply safe_ok; fail_same HP|]. apply safe_ok. split; [|discriminate].
-  cbn [snd]. destruct silent; kpf.
+  sstep; [apply safe_ok; fail_same HP|]. apply safe_ok. succ; [destruct silent; kpf | destruct silent; cbn; lia].
 Qed.
 
 Lemma r_linkify_safe silent : safe (r_linkify cfg st silent) (kpr st).
@@ -248,8 +309,7 @@ Proof.
       intros a _ (K & _). eapply kp_trans; [|exact K]. kpf.
     - eapply safe_weaken; [apply ipush0_safe; exact HP|]. intros a _ (K & _). exact K. }
   intros st1 _ K.
-  eapply safe_bind; [apply skip_sp_fwd_safe; lia|]. intros pos _ Hpos. cbv beta in Hpos. apply safe_ok.
-  split; [|discriminate]. cbn [snd]. apply kp_setpos; [exact K | lia].
+  eapply safe_bind; [apply skip_sp_fwd_safe; lia|]. intros pos _ Hpos. cbv beta in Hpos. apply safe_ok. succ; [apply kp_setpos; [exact K | lia] | cbn; lia].
 Qed.
 
 Lemma r_escape_safe silent : safe (r_escape st silent) (kpr st).
@@ -259,45 +319,46 @@ Proof.
   - eapply safe_bind with (Q := fun st1 => kp st st1).
     { destruct silent; [apply safe_ok, kp_refl, HP|]. eapply safe_weaken; [apply ipush0_safe; exact HP|]. intros a _ (K & _). exact K. }
     intros st1 _ K. eapply safe_bind; [apply skip_sp_fwd_safe; lia|]. intros p _ Hp. cbv beta in Hp. apply safe_ok.
-    split; [|discriminate]. cbn [snd]. apply kp_setpos; [exact K | lia].
+    succ; [apply kp_setpos; [exact K | lia] | cbn; lia].
   - eapply safe_bind with (Q := fun st1 => kp st st1).
     { destruct silent; [apply safe_ok, kp_refl, HP|]. eapply safe_weaken; [apply ipush0_safe; exact HP|]. intros a _ (K & _). exact K. }
-    intros st1 _ K. apply safe_ok. split; [|discriminate]. cbn [snd]. apply kp_setpos; [exact K | lia].
+    intros st1 _ K. apply safe_ok. succ; [apply kp_setpos; [exact K | lia] | cbn; lia].
 Qed.
 
-Lemma bt_scan_safe : forall fuel matchEnd mx ol bts, 0 <= matchEnd -> mx <= len (i_src st) ->
-  safe (bt_scan fuel st matchEnd mx ol bts) (fun r => match fst r with Some (ms, me) => 0 <= me | None => True end).
+Lemma bt_scan_safe : forall fuel matchEnd mx ol bts, 0 <= matchEnd -> mx <= len (i_src st) -> matchEnd <= len (i_src st) ->
+  safe (bt_scan fuel st matchEnd mx ol bts) (fun r => match fst r with Some (ms, me) => matchEnd < me | None => True end).
 Proof.
-  induction fuel as [|f IH]; intros matchEnd mx ol bts H0 H1; cbn [bt_scan]; [apply safe_ok; exact I|]. cbv zeta.
+  induction fuel as [|f IH]; intros matchEnd mx ol bts H0 H1 H2; cbn [bt_scan]; [apply safe_ok; exact I|]. cbv zeta.
   destruct (find_from [96] (i_src st) matchEnd =? -1) eqn:F; [apply safe_ok; exact I|].
   destruct (find_from_spec 96 (i_src st) matchEnd _ eq_refl ltac:(lia) H0) as [G1 G2].
-  pose proof (len_nonneg (i_src st)) as LN.
+  pose proof (len_nonneg (i_src st)) as LN. assert (G0 : 0 <= find_from [96] (i_src st) matchEnd) by lia. destruct (py_idx_get _ _ _ G0 G2) as [_ G3].
   eapply safe_bind; [apply run_len_safe; lia|]. intros me _ Hme. cbv beta in Hme.
-  sstep; [apply safe_ok; cbn; lia|]. apply IH; lia.
+  sstep; [apply safe_ok; cbn; lia|].
+  eapply safe_weaken; [apply IH; lia|]. intros [[[ms' me']|] b'] _ Hr; cbn [fst] in *; [lia | exact I].
 Qed.
 
 Lemma r_backticks_safe silent : safe (r_backticks st silent) (kpr st).
 Proof.
   unfold r_backticks. cbv zeta. spy. sstep; [apply safe_ok; fail_same HP|].
   eapply safe_bind; [apply run_len_safe; lia|]. intros pos _ Hpos. cbv beta in Hpos.
-  pose proof (len_nonneg (slice (i_src st) (i_pos st) pos)) as LS.
+  assert (LS : len (slice (i_src st) (i_pos st) pos) = pos - i_pos st) by (apply len_slice; lia).
   sstep.
-  { apply safe_ok. split; [|discriminate]. cbn [snd]. destruct silent; kpf. }
+  { apply safe_ok. succ; [destruct silent; kpf | destruct silent; cbn; lia]. }
   eapply safe_bind; [apply bt_scan_safe; lia|]. intros [found bts] _ HF. cbn [fst] in HF.
   assert (K0 : kp st (st <| i_backticks := bts |>)) by kpf.
   destruct found as [[ms me]|].
   - eapply safe_bind with (Q := fun st1 => kp st st1).
     { destruct silent; [apply safe_ok; exact K0|]. eapply safe_weaken; [apply ipush0_safe; exact (proj1 K0)|].
       intros a _ (K & _). exact (kp_trans _ _ _ K0 K). }
-    intros st1 _ K. apply safe_ok. split; [|discriminate]. cbn [snd]. apply kp_setpos; [exact K | lia].
-  - apply safe_ok. split; [|discriminate]. cbn [snd]. destruct silent; kpf.
+    intros st1 _ K. apply safe_ok. succ; [apply kp_setpos; [exact K | lia] | cbn; lia].
+  - apply safe_ok. succ; [destruct silent; kpf | destruct silent; cbn; lia].
 Qed.
 
-Lemma scan_delims_safe csw : safe (scan_delims st (i_pos st) csw) (fun r => 0 <= snd r).
+Lemma scan_delims_safe csw : safe (scan_delims st (i_pos st) csw) (fun r => 1 <= snd r).
 Proof.
   unfold scan_delims. spy.
   eapply safe_bind with (Q := fun _ => True); [sstep; [apply safe_py_idx; lia | apply safe_ok; exact I]|]. intros lc _ _.
-  eapply safe_bind; [apply run_len_safe; lia|]. intros pos _ Hpos. cbv beta in Hpos.
+  eapply safe_bind; [apply run_len_first; try lia; exact Ec|]. intros pos _ Hpos. cbv beta in Hpos.
   eapply safe_bind with (Q := fun _ => True); [sstep; [apply safe_py_idx; lia | apply safe_ok; exact I]|]. intros nc _ _.
   cbv zeta. apply safe_ok. destruct csw; cbn [snd]; lia.
 Qed.
@@ -335,7 +396,7 @@ Proof.
     eapply safe_weaken; [apply ipush0_safe; exact HP|]. intros a _ (K & E & _). split; [exact K | exact E]. }
   intros st1 _ (K1 & E1). cbv zeta.
   eapply safe_bind; [apply push_markers_safe; exact (proj1 K1)|]. intros st2 _ (K2 & E2).
-  apply safe_ok. split; [|discriminate]. cbn [snd]. apply kp_setpos; [exact (kp_trans _ _ _ K1 K2) | lia].
+  apply safe_ok. succ; [apply kp_setpos; [exact (kp_trans _ _ _ K1 K2) | lia] | cbn; lia].
 Qed.
 
 Lemma r_emphasis_safe silent : safe (r_emphasis st silent) (kpr st).
@@ -343,7 +404,7 @@ Proof.
   unfold r_emphasis. spy. destruct silent; [apply safe_ok; fail_same HP|]. sstep; [apply safe_ok; fail_same HP|].
   eapply safe_bind; [apply scan_delims_safe; assumption|]. intros [[op cl] n] _ Hn. cbn [snd] in Hn.
   eapply safe_bind; [apply push_markers_safe; exact HP|]. intros st1 _ (K1 & E1).
-  apply safe_ok. split; [|discriminate]. cbn [snd]. apply kp_setpos; [exact K1 | lia].
+  apply safe_ok. succ; [apply kp_setpos; [exact K1 | lia] | cbn; lia].
 Qed.
 
 Lemma autolink_end_safe : forall fuel pos mx, -1 <= pos -> mx <= len (i_src st) ->
@@ -373,10 +434,10 @@ Proof.
   sstep; [sstep; [apply safe_ok; fail_same HP|]|sstep; [sstep; [apply safe_ok; fail_same HP|]|apply safe_ok; fail_same HP]].
   - eapply safe_bind with (Q := fun st1 => kp st st1 /\ i_pos st1 = i_pos st).
     { destruct silent; [apply safe_ok; split; [apply kp_refl; exact HP | reflexivity]|]. apply push_autolink_safe; exact HP. }
-    intros st1 _ (K & E). apply safe_ok. split; [|discriminate]. cbn [snd]. apply kp_setpos; [exact K | lia].
+    intros st1 _ (K & E). apply safe_ok. succ; [apply kp_setpos; [exact K | lia] | cbn; lia].
   - eapply safe_bind with (Q := fun st1 => kp st st1 /\ i_pos st1 = i_pos st).
     { destruct silent; [apply safe_ok; split; [apply kp_refl; exact HP | reflexivity]|]. apply push_autolink_safe; exact HP. }
-    intros st1 _ (K & E). apply safe_ok. split; [|discriminate]. cbn [snd]. apply kp_setpos; [exact K | lia].
+    intros st1 _ (K & E). apply safe_ok. succ; [apply kp_setpos; [exact K | lia] | cbn; lia].
 Qed.
 
 Lemma r_html_inline_safe silent : safe (r_html_inline cfg st silent) (kpr st).
@@ -384,14 +445,14 @@ Proof.
   unfold r_html_inline. cbv zeta. sstep; [apply safe_ok; fail_same HP|]. spy. sstep; [apply safe_ok; fail_same HP|].
   spy. sstep; [apply safe_ok; fail_same HP|].
   destruct (match_at re_html_inline_HTML_TAG_RE (init_state (slice_from (i_src st) (i_pos st)))) as [e|] eqn:M; [|apply safe_ok; fail_same HP].
-  apply match_at_ge in M. cbn [init_state m_pos] in M.
+  apply (match_at_gt _ _ _ html_tag_nonempty) in M. cbn [init_state m_pos] in M.
   eapply safe_bind with (Q := fun st1 => kp st st1 /\ i_pos st1 = i_pos st).
   { destruct silent; [apply safe_ok; split; [apply kp_refl; exact HP | reflexivity]|]. cbv zeta.
     eapply safe_bind; [apply ipush0_safe; exact HP|]. intros s1 _ (K & E & _). apply safe_ok.
     split; [|destruct (test re_utils_LINK_CLOSE_RE _), (test re_utils_LINK_OPEN_RE _); exact E].
     eapply kp_trans; [exact K|]. destruct K as (K1 & _).
     destruct (test re_utils_LINK_CLOSE_RE _), (test re_utils_LINK_OPEN_RE _); apply kp_fields; try reflexivity; try exact K1; cbn; destruct K1; lia. }
-  intros st1 _ (K & E). apply safe_ok. split; [|discriminate]. cbn [snd]. apply kp_setpos; [exact K | lia].
+  intros st1 _ (K & E). apply safe_ok. succ; [apply kp_setpos; [exact K | lia] | cbn; lia].
 Qed.
 
 Lemma r_entity_safe silent : safe (r_entity st silent) (kpr st).
@@ -399,18 +460,18 @@ Proof.
   unfold r_entity. cbv zeta. spy. sstep; [apply safe_ok; fail_same HP|]. sstep; [apply safe_ok; fail_same HP|]. spy.
   sstep.
   - destruct (match_at re_entity_DIGITAL_RE (init_state (slice_from (i_src st) (i_pos st)))) as [e|] eqn:M; [|apply safe_ok; fail_same HP].
-    apply match_at_ge in M. cbn [init_state m_pos] in M.
+    apply (match_at_gt _ _ _ digital_nonempty) in M. cbn [init_state m_pos] in M.
     eapply safe_bind with (Q := fun st1 => kp st st1 /\ i_pos st1 = i_pos st).
     { destruct silent; [apply safe_ok; split; [apply kp_refl; exact HP | reflexivity]|]. cbv zeta.
       eapply safe_weaken; [apply ipush0_safe; exact HP|]. intros a _ (K & E & _). split; [exact K | exact E]. }
-    intros st1 _ (K & E). apply safe_ok. split; [|discriminate]. cbn [snd]. apply kp_setpos; [exact K | lia].
+    intros st1 _ (K & E). apply safe_ok. succ; [apply kp_setpos; [exact K | lia] | cbn; lia].
   - destruct (match_at re_entity_NAMED_RE (init_state (slice_from (i_src st) (i_pos st)))) as [e|] eqn:M; [|apply safe_ok; fail_same HP].
-    apply match_at_ge in M. cbn [init_state m_pos] in M. cbv zeta.
+    apply (match_at_gt _ _ _ named_nonempty) in M. cbn [init_state m_pos] in M. cbv zeta.
     sstep; [|apply safe_ok; fail_same HP].
     eapply safe_bind with (Q := fun st1 => kp st st1 /\ i_pos st1 = i_pos st).
     { destruct silent; [apply safe_ok; split; [apply kp_refl; exact HP | reflexivity]|].
       eapply safe_weaken; [apply ipush0_safe; exact HP|]. intros a _ (K & E & _). split; [exact K | exact E]. }
-    intros st1 _ (K & E). apply safe_ok. split; [|discriminate]. cbn [snd]. apply kp_setpos; [exact K | lia].
+    intros st1 _ (K & E). apply safe_ok. succ; [apply kp_setpos; [exact K | lia] | cbn; lia].
 Qed.
 
 End Two.
@@ -419,7 +480,7 @@ End SRules.
 (* ---- rules with callbacks: link, image ---- *)
 Definition FN (F : ifuncs) : Prop :=
   (forall st, PI st -> safe (f_tokenize F st) (kp st))
-  /\ (forall st, PI st -> i_pos st < i_posMax st -> safe (f_skip F st) (kp st))
+  /\ (forall st, PI st -> i_pos st < i_posMax st -> safe (f_skip F st) (fun st' => kp st st' /\ i_pos st < i_pos st'))
   /\ (forall src env, safe (f_parse F src env) (fun _ => True)).
 
 Lemma at_is_safe src pos mx c : 0 <= pos -> mx <= len src -> safe (at_is src pos mx c) (fun _ => True).
@@ -435,21 +496,21 @@ Qed.
 Section WithF.
 Context (cfg : icfg) (rf cf : str -> str) (F : ifuncs) (HF : FN F).
 
-Definition lbl_post (st : istate) (oldPos : Z) (r : Z * istate) : Prop :=
-  kp st (snd r) /\ i_pos (snd r) = oldPos /\ (fst r = -1 \/ 0 <= fst r < i_posMax st).
+Definition lbl_post (st : istate) (oldPos lo : Z) (r : Z * istate) : Prop :=
+  kp st (snd r) /\ i_pos (snd r) = oldPos /\ (fst r = -1 \/ lo <= fst r < i_posMax st).
 
-Lemma label_loop_safe : forall fuel st level dn oldPos, PI st -> 0 <= oldPos ->
-  safe (label_loop F fuel st level dn oldPos) (lbl_post st oldPos).
+Lemma label_loop_safe : forall fuel st level dn oldPos lo, PI st -> 0 <= oldPos -> lo <= i_pos st ->
+  safe (label_loop F fuel st level dn oldPos) (lbl_post st oldPos lo).
 Proof.
-  induction fuel as [|f IH]; intros st level dn oldPos HP HO; [exact I|]. cbn [label_loop].
+  induction fuel as [|f IH]; intros st level dn oldPos lo HP HO HLo; [exact I|]. cbn [label_loop].
   pose proof HP as (P0 & P1 & D).
   assert (KO : kp st (st <| i_pos := oldPos |>)) by kpf.
   sstep; [apply safe_ok; split; [exact KO|]; split; [reflexivity | left; reflexivity]|].
   spy. sstep; [apply safe_ok; split; [exact KO|]; split; [reflexivity | right; cbn; lia]|].
   cbv zeta. destruct HF as (_ & HS & _).
-  eapply safe_bind; [apply HS; [exact HP | lia]|]. intros st1 _ K1.
-  assert (REC : forall lv, safe (label_loop F f st1 lv dn oldPos) (lbl_post st oldPos)).
-  { intros lv. eapply safe_weaken; [apply IH; [exact (proj1 K1) | exact HO]|].
+  eapply safe_bind; [apply HS; [exact HP | lia]|]. intros st1 _ (K1 & ADV).
+  assert (REC : forall lv, safe (label_loop F f st1 lv dn oldPos) (lbl_post st oldPos lo)).
+  { intros lv. eapply safe_weaken; [apply (IH st1 lv dn oldPos lo); [exact (proj1 K1) | exact HO | lia]|].
     intros [r s'] _ (A & B & C). split; [exact (kp_trans _ _ _ K1 A)|]. split; [exact B|].
     destruct K1 as (_ & _ & E & _). cbn [fst] in *. rewrite E in C. exact C. }
   sstep; [|apply REC]. sstep; [apply REC|]. sstep; [|apply REC].
@@ -457,24 +518,24 @@ Proof.
 Qed.
 
 Lemma parse_link_label_safe st start dn : PI st -> 0 <= start + 1 ->
-  safe (parse_link_label F st start dn) (lbl_post st (i_pos st)).
+  safe (parse_link_label F st start dn) (lbl_post st (i_pos st) (start + 1)).
 Proof.
   intros HP HS. unfold parse_link_label. pose proof HP as (P0 & P1 & D).
   assert (K : kp st (st <| i_pos := start + 1 |>)) by kpf.
-  eapply safe_weaken; [apply label_loop_safe; [exact (proj1 K) | exact P0]|].
+  eapply safe_weaken; [apply (label_loop_safe _ _ _ _ _ (start + 1)); [exact (proj1 K) | exact P0 | cbn; lia]|].
   intros [r s'] _ (A & B & C). split; [exact (kp_trans _ _ _ K A)|]. split; [exact B | exact C].
 Qed.
 
-Definition ref_post (st : istate) (r : option (str * str * str * Z) * istate) : Prop :=
-  kp st (snd r) /\ i_pos (snd r) = i_pos st /\ match fst r with Some (_, _, _, p) => 0 <= p | None => True end.
+Definition ref_post (st : istate) (lb : Z) (r : option (str * str * str * Z) * istate) : Prop :=
+  kp st (snd r) /\ i_pos (snd r) = i_pos st /\ match fst r with Some (_, _, _, p) => lb < p | None => True end.
 
-Lemma ref_branch_safe st pos ls le mx : PI st -> 0 <= pos -> mx <= len (i_src st) -> 0 <= le + 1 ->
-  safe (ref_branch cf F st pos ls le mx) (ref_post st).
+Lemma ref_branch_safe st pos ls le mx lb : PI st -> 0 <= pos -> mx <= len (i_src st) -> 0 <= le + 1 -> lb <= pos -> lb <= le ->
+  safe (ref_branch cf F st pos ls le mx) (ref_post st lb).
 Proof.
-  intros HP H0 H1 H2. unfold ref_branch.
+  intros HP H0 H1 H2 H3 H4. unfold ref_branch.
   destruct (e_refs (i_env st)) as [refs|]; [|apply safe_ok; split; [apply kp_refl; exact HP|]; split; [reflexivity | exact I]].
   eapply safe_bind; [apply at_is_safe; assumption|]. intros br _ _.
-  eapply safe_bind with (Q := fun x => kp st (snd x) /\ i_pos (snd x) = i_pos st /\ 0 <= snd (fst x)).
+  eapply safe_bind with (Q := fun x => kp st (snd x) /\ i_pos (snd x) = i_pos st /\ lb < snd (fst x)).
   { destruct br; [|apply safe_ok; cbn; split; [apply kp_refl; exact HP|]; split; [reflexivity | lia]].
     eapply safe_bind; [apply parse_link_label_safe; [exact HP | lia]|]. intros [p s'] _ (A & B & C). cbn [fst snd] in *.
     sstep; apply safe_ok; cbn; (split; [exact A|]; split; [exact B | lia]). }
@@ -492,20 +553,20 @@ Lemma r_link_safe silent : safe (r_link cfg rf cf F st silent) (kpr st).
 Proof.
   unfold r_link. cbv zeta. spy. sstep; [apply safe_ok; fail_same HP|].
   eapply safe_bind; [apply parse_link_label_safe; [exact HP | lia]|]. intros [labelEnd st0] _ (K0 & E0 & R0). cbn [fst snd] in *.
-  sstep; [apply safe_ok; split; [exact K0 | intros _; exact E0]|].
-  assert (LE : 0 <= labelEnd < i_posMax st) by lia.
+  sstep; [apply safe_ok; fail_at K0 E0|].
+  assert (LE : i_pos st + 1 <= labelEnd < i_posMax st) by lia.
   pose proof K0 as (HP0 & S0 & M0 & PR0). rewrite S0.
   eapply safe_bind; [apply at_is_safe; lia|]. intros paren _ _.
-  eapply safe_bind with (Q := fun inlf => match inlf with Some (_, _, p, _) => 0 <= p | None => True end).
+  eapply safe_bind with (Q := fun inlf => match inlf with Some (_, _, p, _) => i_pos st < p | None => True end).
   { destruct paren; [|apply safe_ok; lia].
     eapply safe_bind; [apply skip_ws_nl_i_safe; lia|]. intros p1 _ H1. cbv beta in H1.
     sstep; [apply safe_ok; exact I|]. cbv zeta.
     set (res := parse_link_destination (i_src st) p1 (i_posMax st0)).
-    eapply safe_bind with (Q := fun x => 0 <= snd x).
+    eapply safe_bind with (Q := fun x => i_pos st < snd x).
     { destruct (l_ok res) eqn:OK; [|apply safe_ok; cbn; lia]. cbv zeta.
       destruct (parse_link_destination_ge (i_src st) p1 (i_posMax st0) ltac:(lia) OK) as [G _]. fold res in G.
       match goal with |- safe (let '(_, _) := ?x in _) _ => destruct x as [href p] eqn:EP end.
-      assert (PG : 0 <= p) by (destruct (validate_link_re _); injection EP as _ <-; lia).
+      assert (PG : i_pos st < p) by (destruct (validate_link_re _); injection EP as _ <-; lia).
       eapply safe_bind; [apply skip_ws_nl_i_safe; lia|]. intros p' _ Hp'. cbv beta in Hp'. cbv zeta.
       set (tres := parse_link_title (i_src st) p' (i_posMax st0)).
       destruct ((p' <? i_posMax st) && negb (p =? p') && l_ok tres) eqn:TQ; [|apply safe_ok; cbn; lia].
@@ -514,17 +575,17 @@ Proof.
       eapply safe_bind; [apply skip_ws_nl_i_safe; lia|]. intros p'' _ Hp''. cbv beta in Hp''. apply safe_ok. cbn. lia. }
     intros [[href title] p2] _ H2. cbn [snd] in H2.
     eapply safe_bind; [apply at_is_safe; lia|]. intros close _ _. apply safe_ok. lia. }
-  intros inlf _ HI. destruct inlf as [[[[href0 title0] pos1] parseRef]|]; [|apply safe_ok; split; [exact K0 | intros _; exact E0]].
+  intros inlf _ HI. destruct inlf as [[[[href0 title0] pos1] parseRef]|]; [|apply safe_ok; fail_at K0 E0].
   eapply safe_bind with (Q := fun fin => kp st (snd fin) /\ i_pos (snd fin) = i_pos st
-                                         /\ match fst fin with Some (_, _, _, p) => 0 <= p | None => True end).
+                                         /\ match fst fin with Some (_, _, _, p) => i_pos st < p | None => True end).
   { destruct parseRef; [|apply safe_ok; cbn; split; [exact K0|]; split; [exact E0 | exact HI]].
-    eapply safe_bind; [apply ref_branch_safe; [exact HP0 | exact HI | rewrite S0, <- M0; lia | lia]|].
+    eapply safe_bind; [apply (ref_branch_safe _ _ _ _ _ (i_pos st)); [exact HP0 | lia | rewrite S0, <- M0; lia | lia | lia | lia]|].
     intros [r st1] _ (A & B & C). cbn [fst snd] in *.
     destruct r as [[[[h t] l] p]|]; apply safe_ok; cbn.
     - split; [exact (kp_trans _ _ _ K0 A)|]. split; [congruence | exact C].
     - split; [apply kp_setpos; [exact (kp_trans _ _ _ K0 A) | exact P0]|]. split; [reflexivity | exact I]. }
   intros [fin st1] _ (K1 & E1 & C1). cbn [fst snd] in *.
-  destruct fin as [[[[href title] label] pos]|]; [|apply safe_ok; split; [exact K1 | intros _; exact E1]].
+  destruct fin as [[[[href title] label] pos]|]; [|apply safe_ok; fail_at K1 E1].
   pose proof K1 as (HP1 & S1 & M1 & PR1). pose proof HP1 as (X0 & X1 & D1).
   eapply safe_bind with (Q := fun st2 => DI st2 /\ i_src st2 = i_src st /\ i_prev st2 = i_prev st).
   { destruct silent; [apply safe_ok; split; [exact D1|]; split; [exact S1 | exact PR1]|].
@@ -538,9 +599,9 @@ Proof.
     eapply safe_weaken; [apply (ipushm1_safe _ _ _ _ (i_cur (st1 <| i_pos := i_pos st + 1 |> <| i_posMax := labelEnd |>)) (i_prev st1) HPC); cbn; rewrite T4, A5; reflexivity|].
     intros s3 _ (C1' & C2 & C3 & C4 & C5). cbn in C2, C5.
     split; [exact (proj2 (proj2 C1'))|]. split; [rewrite C2, T2, A2; cbn; exact S1 | rewrite C5; exact PR1]. }
-  intros st2 _ (D2 & S2 & PR2). apply safe_ok. split; [|discriminate]. cbn [snd].
+  intros st2 _ (D2 & S2 & PR2). apply safe_ok. succ; [|cbn; exact C1].
   split; [|split; [exact S2|]; split; [reflexivity | exact PR2]].
-  split; [exact C1|]. split; [cbn; rewrite S2; exact P1 | exact D2].
+  split; [cbn; lia|]. split; [cbn; rewrite S2; exact P1 | exact D2].
 Qed.
 
 Lemma r_image_safe silent : safe (r_image cfg rf cf F st silent) (kpr st).
@@ -550,24 +611,24 @@ Proof.
   { sstep; [|apply safe_ok; exact I]. spy. apply safe_ok. exact I. }
   intros nb _ _. destruct nb; [apply safe_ok; fail_same HP|].
   eapply safe_bind; [apply parse_link_label_safe; [exact HP | lia]|]. intros [labelEnd st0] _ (K0 & E0 & R0). cbn [fst snd] in *.
-  sstep; [apply safe_ok; split; [exact K0 | intros _; exact E0]|].
-  assert (LE : 0 <= labelEnd < i_posMax st) by lia.
+  sstep; [apply safe_ok; fail_at K0 E0|].
+  assert (LE : i_pos st + 2 <= labelEnd < i_posMax st) by lia.
   pose proof K0 as (HP0 & S0 & M0 & PR0). rewrite S0.
   eapply safe_bind; [apply at_is_safe; lia|]. intros paren _ _.
   eapply safe_bind with (Q := fun fin => kp st (snd fin) /\ i_pos (snd fin) = i_pos st
-                                         /\ match fst fin with Some (_, _, _, p) => 0 <= p | None => True end).
+                                         /\ match fst fin with Some (_, _, _, p) => i_pos st < p | None => True end).
   { destruct paren.
     - eapply safe_bind; [apply skip_ws_nl_i_safe; lia|]. intros p1 _ H1. cbv beta in H1.
       sstep; [apply safe_ok; cbn; split; [exact K0|]; split; [exact E0 | exact I]|]. cbv zeta.
       set (res := parse_link_destination (i_src st) p1 (i_posMax st0)).
       match goal with |- safe (let '(_, _) := ?x in _) _ => destruct x as [href p] eqn:EP end.
-      assert (PG : 0 <= p).
+      assert (PG : i_pos st < p).
       { destruct (l_ok res) eqn:OK; [|injection EP as _ <-; lia].
         destruct (parse_link_destination_ge (i_src st) p1 (i_posMax st0) ltac:(lia) OK) as [G _]. fold res in G.
         destruct (validate_link_re _); injection EP as _ <-; lia. }
       eapply safe_bind; [apply skip_ws_nl_i_safe; lia|]. intros p' _ Hp'. cbv beta in Hp'. cbv zeta.
       set (tres := parse_link_title (i_src st) p' (i_posMax st0)).
-      eapply safe_bind with (Q := fun x => 0 <= snd x).
+      eapply safe_bind with (Q := fun x => i_pos st < snd x).
       { destruct ((p' <? i_posMax st) && negb (p =? p') && l_ok tres) eqn:TQ; [|apply safe_ok; cbn; lia].
         assert (TOK : l_ok tres = true) by (destruct (l_ok tres); [reflexivity | rewrite Bool.andb_false_r in TQ; discriminate TQ]).
         destruct (parse_link_title_lf (i_src st) p' (i_posMax st0) ltac:(lia) TOK) as [G2 _]. fold tres in G2.
@@ -577,7 +638,7 @@ Proof.
       destruct close; apply safe_ok; cbn.
       + split; [exact K0|]. split; [exact E0 | lia].
       + split; [apply kp_setpos; [exact K0 | exact P0]|]. split; [reflexivity | exact I].
-    - eapply safe_bind; [apply ref_branch_safe; [exact HP0 | lia | rewrite S0, <- M0; lia | lia]|].
+    - eapply safe_bind; [apply (ref_branch_safe _ _ _ _ _ (i_pos st)); [exact HP0 | lia | rewrite S0, <- M0; lia | lia | lia | lia]|].
       intros [r st1] _ (A & B & C). cbn [fst snd] in *.
       destruct r as [[[[h t] l] p]|]; apply safe_ok; cbn.
       + split; [exact (kp_trans _ _ _ K0 A)|]. split; [congruence | exact C].
@@ -585,16 +646,16 @@ Proof.
         * split; [apply kp_setpos; [exact (kp_trans _ _ _ K0 A) | exact P0]|]. split; [reflexivity | exact I].
         * split; [exact (kp_trans _ _ _ K0 A)|]. split; [congruence | exact I]. }
   intros [fin st1] _ (K1 & E1 & C1). cbn [fst snd] in *.
-  destruct fin as [[[[href title] label] pos]|]; [|apply safe_ok; split; [exact K1 | intros _; exact E1]].
+  destruct fin as [[[[href title] label] pos]|]; [|apply safe_ok; fail_at K1 E1].
   eapply safe_bind with (Q := fun st2 => kp st st2).
   { destruct silent; [apply safe_ok; exact K1|]. cbv zeta.
     destruct HF as (_ & _ & HPa).
     eapply safe_bind; [apply HPa|]. intros toks _ _.
     eapply safe_weaken; [apply ipush0_safe; exact (proj1 K1)|]. intros a _ (K & _). exact (kp_trans _ _ _ K1 K). }
-  intros st2 _ K2. apply safe_ok. split; [|discriminate]. cbn [snd].
+  intros st2 _ K2. apply safe_ok. succ; [|cbn; exact C1].
   destruct K2 as (HP2 & S2 & M2 & PR2). destruct HP2 as (Y0 & Y1 & D2).
   split; [|split; [exact S2|]; split; [reflexivity | exact PR2]].
-  split; [exact C1|]. split; [cbn; rewrite S2; exact P1 | exact D2].
+  split; [cbn; lia|]. split; [cbn; rewrite S2; exact P1 | exact D2].
 Qed.
 
 End R.
@@ -632,42 +693,49 @@ Proof.
   assert (K0 : kp st st0 /\ i_pos st0 = i_pos st) by (unfold st0; destruct bump; (split; [kpf; apply HP | reflexivity])).
   destruct K0 as [K0 E0].
   eapply safe_bind; [apply (iapply_safe F HF n st0 silent); [exact (proj1 K0) | destruct K0 as (_ & _ & M & _); lia]|].
-  intros [ok st1] _ (K1 & F1). cbn [fst snd] in *. pose proof (proj1 K1) as HP1.
+  intros [ok st1] _ (K1 & F1 & G1). cbn [fst snd] in *. pose proof (proj1 K1) as HP1.
   set (st2 := if bump then st1 <| i_level := i_level st1 - 1 |> else st1).
   assert (K2 : kp st1 st2 /\ i_pos st2 = i_pos st1) by (unfold st2; destruct bump; (split; [kpf; apply HP1 | reflexivity])).
   destruct K2 as [K2 E2].
   pose proof (kp_trans _ _ _ K0 (kp_trans _ _ _ K1 K2)) as K.
-  destruct ok; [apply safe_ok; split; [exact K | discriminate]|].
+  destruct ok; [apply safe_ok; succ; [exact K | specialize (G1 eq_refl); lia]|].
   specialize (F1 eq_refl).
   eapply safe_weaken; [apply IH; [exact (proj1 K) | destruct K as (_ & _ & M & _); lia]|].
-  intros [ok' st3] _ (K3 & F3). cbn [fst snd] in *. split; [exact (kp_trans _ _ _ K K3)|]. cbn [fst snd]. intros X. rewrite (F3 X). lia.
+  intros [ok' st3] _ (K3 & F3 & G3). cbn [fst snd] in *. split; [exact (kp_trans _ _ _ K K3)|]. cbn [fst snd].
+  split; [intros X; rewrite (F3 X); lia | intros X; specialize (G3 X); lia].
 Qed.
 
-Lemma Forall_zset k v : 0 <= v -> forall m, Forall (fun kv : Z * Z => 0 <= snd kv) m -> Forall (fun kv : Z * Z => 0 <= snd kv) (zset k v m).
+Lemma Forall_zset k v : 0 <= v -> k < v -> forall m, Forall (fun kv : Z * Z => 0 <= snd kv /\ fst kv < snd kv) m ->
+  Forall (fun kv : Z * Z => 0 <= snd kv /\ fst kv < snd kv) (zset k v m).
 Proof.
-  intros Hv. induction m as [|[a b] m IH]; intros H; cbn [zset]; [constructor; [exact Hv | constructor]|].
-  inversion H as [|x y Hx Hy]; subst. destruct (k =? a); constructor; try assumption. apply IH. exact Hy.
+  intros Hv Hk. induction m as [|[a b] m IH]; intros H; cbn [zset]; [constructor; [cbn; lia | constructor]|].
+  inversion H as [|x y Hx Hy]; subst. destruct (k =? a); constructor; try assumption; [cbn; lia|]. apply IH. exact Hy.
 Qed.
-Lemma zlookup_nonneg k v : forall m, Forall (fun kv : Z * Z => 0 <= snd kv) m -> zlookup k m = Some v -> 0 <= v.
+Lemma zlookup_spec k v : forall m, Forall (fun kv : Z * Z => 0 <= snd kv /\ fst kv < snd kv) m -> zlookup k m = Some v -> 0 <= v /\ k < v.
 Proof.
   induction m as [|[a b] m IH]; intros H E; cbn [zlookup] in E; [discriminate|].
-  inversion H as [|x y Hx Hy]; subst. destruct (k =? a); [injection E as <-; exact Hx | exact (IH Hy E)].
+  inversion H as [|x y Hx Hy]; subst. destruct (k =? a) eqn:KA; [injection E as <-; cbn in Hx; lia | exact (IH Hy E)].
 Qed.
 
-Lemma skip_token_safe F (HF : FN F) st : PI st -> i_pos st < i_posMax st -> safe (skip_token cfg rf cf lt F st) (kp st).
+Lemma skip_token_safe F (HF : FN F) st : PI st -> i_pos st < i_posMax st ->
+  safe (skip_token cfg rf cf lt F st) (fun st' => kp st st' /\ i_pos st < i_pos st').
 Proof.
   intros HP HL. unfold skip_token. cbv zeta. pose proof HP as (P0 & P1 & DDs & CAs).
   destruct (zlookup (i_pos st) (i_cache st)) as [p|] eqn:Z.
-  { apply safe_ok. kpf. cbn. exact (zlookup_nonneg _ _ _ CAs Z). }
-  eapply safe_bind with (Q := fun r => kp st (snd r)).
-  { sstep; [eapply safe_weaken; [apply first_rule_safe; assumption | intros a _ (K & _); exact K]|]. apply safe_ok. cbn [snd]. kpf. }
-  intros [ok st1] _ K1. cbn [fst snd] in *. apply safe_ok.
+  { destruct (zlookup_spec _ _ _ CAs Z) as [Z1 Z2]. apply safe_ok. split; [kpf | cbn; exact Z2]. }
+  eapply safe_bind with (Q := fun r => kp st (snd r) /\ (fst r = true -> i_pos st < i_pos (snd r)) /\ i_pos st <= i_pos (snd r)).
+  { sstep.
+    - eapply safe_weaken; [apply first_rule_safe; assumption|]. intros [ok a] _ (K & Fa & Ga). cbn [fst snd] in *.
+      split; [exact K|]. split; [exact Ga|]. destruct ok; [specialize (Ga eq_refl); lia | rewrite (Fa eq_refl); lia].
+    - apply safe_ok. cbn [fst snd]. split; [kpf|]. split; [discriminate | cbn; lia]. }
+  intros [ok st1] _ (K1 & G1 & L1). cbn [fst snd] in *. apply safe_ok.
   set (st2 := if ok then st1 else st1 <| i_pos := i_pos st1 + 1 |>).
-  assert (K2 : kp st st2).
-  { unfold st2. destruct ok; [exact K1|]. apply kp_setpos; [exact K1|]. destruct K1 as ((X & _) & _). lia. }
+  assert (K2 : kp st st2 /\ i_pos st < i_pos st2).
+  { unfold st2. destruct ok; [split; [exact K1 | exact (G1 eq_refl)]|]. split; [apply kp_setpos; [exact K1|]; lia | cbn; lia]. }
+  destruct K2 as [K2 ADV]. split; [|cbn; exact ADV].
   eapply kp_trans; [exact K2|]. destruct K2 as ((X0 & X1 & XD & XC) & _).
   split; [|split; [reflexivity|]; split; reflexivity].
-  split; [exact X0|]. split; [exact X1|]. split; [exact XD|]. unfold CA. cbn. apply Forall_zset; [exact X0 | exact XC].
+  split; [exact X0|]. split; [exact X1|]. split; [exact XD|]. unfold CA. cbn. apply Forall_zset; [exact X0 | exact ADV | exact XC].
 Qed.
 
 Lemma tok_while_safe F (HF : FN F) : forall fuel st endp ok, PI st -> endp = i_posMax st ->
@@ -676,8 +744,9 @@ Proof.
   induction fuel as [|f IH]; intros st endp ok HP EE; [exact I|]. cbn [tok_while]. subst endp.
   sstep; [apply safe_ok; apply kp_refl; exact HP|].
   assert (HL : i_pos st < i_posMax st) by lia.
-  eapply safe_bind with (Q := kpr st).
-  { sstep; [apply first_rule_safe; assumption|]. apply safe_ok. fail_same HP. }
+  eapply safe_bind with (Q := fun r => kp st (snd r) /\ (fst r = false -> i_pos (snd r) = i_pos st)).
+  { sstep; [eapply safe_weaken; [apply first_rule_safe; assumption | intros a _ (K & Fa & _); split; assumption]|].
+    apply safe_ok. split; [apply kp_refl; exact HP | intros _; reflexivity]. }
   intros [ok1 st1] _ (K1 & F1). cbn [fst snd] in *. pose proof K1 as (HP1 & S1 & M1 & PR1).
   destruct ok1.
   - sstep; [apply safe_ok; exact K1|]. eapply safe_weaken; [apply IH; [exact HP1 | congruence]|].
